@@ -89,12 +89,13 @@ def rule_first(R):
     # same clause as C01.first, reported under C12
     f = R.f
     call, hb, hcode = roles.handshake(f)
-    ios = [c for c in hcode.calls.values() if c.bb in hcode.reachable and f.call_does_io(c)]
-    conn = [c for c in ios if any("Connect" in g and "packets::" in g for g in c.gargs)]
-    ok = len(conn) == 1
+    cwr = roles.connect_write(f)
+    ios = cwr["ios"]
+    ok = cwr["count"] == 1 and bool(cwr["calls"])
     if ok:
-        conts, _ = ops.cont_edges(hcode, conn[0])
-        ok = bool(conts) and all(hcode.must_pass([0], [o.bb], via_edges=conts)[0] for o in ios if o.bb != conn[0].bb)
+        conts = cwr["conts"]
+        mine = set(c.bb for c in cwr["calls"])
+        ok = bool(conts) and all(hcode.must_pass([0], [o.bb], via_edges=conts)[0] for o in ios if o.bb not in mine)
     R.ob("first/connect-first", ok,
          "the first transport access of every connection is the write of one complete CONNECT, and everything else in "
          "the handshake is dominated by its success", where=hb.span)
@@ -117,12 +118,11 @@ def rule_first(R):
 def rule_scratch(R):
     f = R.f
     call, hb, hcode = roles.handshake(f)
-    ios = [c for c in hcode.calls.values() if c.bb in hcode.reachable and f.call_does_io(c)]
-    conn = [c for c in ios if any("Connect" in g and "packets::" in g for g in c.gargs)]
-    if len(conn) != 1:
+    cwr = roles.connect_write(f)
+    if cwr["count"] != 1 or cwr["buffer"] is None:
         raise AnchorLost("connect-write")
-    c = conn[0]
-    buf = hcode.operand_term(c.args[0])
+    c = cwr["calls"][0] if cwr["calls"] else None
+    buf = cwr["buffer"]
     arena = False
     why = ""
     for x in walk(buf):
@@ -137,7 +137,7 @@ def rule_scratch(R):
     R.ob("scratch/connect_handshake", not arena,
          "CONNECT must be encodable whatever is retained: its buffer must not be storage whose free size depends on "
          "in-flight state (found: %s = %s) — with a full arena every connect() fails with BufferTooSmall and only a "
-         "connection could free the space" % (show(buf)[:120], why), where=c.span)
+         "connection could free the space" % (show(buf)[:120], why), where=cwr["span"])
 
 
 def run(R):
